@@ -93,6 +93,8 @@ def ref_job(job):
                 r = paths.results_manager.get_named_results("g")[0]
                 expect = {"vars": json.loads(json.dumps(r.csvpath.variables, default=str)), "lines": [list(l) for l in r.lines.next()],
                           "data_file": r.data_file_path, "run_dir": r.run_dir}
+                if k == 0:
+                    first = dict(expect)
             c10.set_clock((2026, 5, 6, 7, 9, 0))
             paths.collect_paths(pathsname="user", filename="f0")
             u = paths.results_manager.get_named_results("user")[0]
@@ -110,6 +112,13 @@ def ref_job(job):
             out["replayed"] = [list(l) for l in rp.lines.next()]
             rlast = f"$g.results.{os.path.basename(expect['run_dir'])[:4]}:last.src"
             out["last_file"] = paths.file_manager.get_named_file(rlast)
+            # ':first' names the oldest run of the group: its data.csv is what gets replayed
+            rfirst = f"$g.results.{os.path.basename(first['run_dir'])[:4]}:first.src"
+            out["first_file"] = paths.file_manager.get_named_file(rfirst)
+            paths.paths_manager.add_named_paths(name="replay1", paths=['~id: rp1~ $[*][ yes() ]'])
+            paths.collect_paths(pathsname="replay1", filename=rfirst)
+            out["replayed_first"] = [list(l) for l in paths.results_manager.get_named_results("replay1")[0].lines.next()]
+            out["first"] = first
     except Exception as ex:  # noqa
         out["exc"] = type(ex).__name__ + ": " + str(ex)[:200]
     finally:
@@ -212,6 +221,9 @@ def run(ctx):
         if bad or g.get("hs") != want_hs:
             fails.append({"kind": "a variable / header reference does not evaluate to what the referenced group's most recent run left", "runs_of_g": nruns, "rows": rl,
                           "got": g, "expected": dict(want, hs=want_hs), "errors": o["errors"]})
+        elif o["replayed_first"] != o["first"]["lines"] or os.path.normpath(o["first_file"]) != os.path.normpath(o["first"]["data_file"]):
+            fails.append({"kind": "a ':first' results reference used as a file name did not replay the oldest run's data.csv", "rows": rl, "replayed": o["replayed_first"],
+                          "data_csv_lines": o["first"]["lines"], "first_resolves_to": o["first_file"], "expected": o["first"]["data_file"]})
         elif o["replayed"] != e["lines"] or os.path.normpath(o["last_file"]) != os.path.normpath(e["data_file"]):
             fails.append({"kind": "a results reference used as a file name did not replay the referenced member's data.csv", "rows": rl, "replayed": o["replayed"], "data_csv_lines": e["lines"],
                           "last_resolves_to": o["last_file"], "expected": e["data_file"]})
@@ -226,7 +238,7 @@ def run(ctx):
         "evaluations": len(jobs) + len(sjobs) + len(rjobs), "distinct_nontrivial": len(nontrivial) + sum(1 for o in rres if not o["exc"]),
         "rule": "chains of 2-4 generated filter csvpaths (10 filter forms, scan windows, side-effect components) with source-mode: preceding on each later member with probability 0.7, over files "
                 "with hostile cells and blank records; every member compared with its standalone run over the input the model prescribes; reference scenarios: group g run 1-3 times over "
-                "different files, then a csvpath reading $g.variables.total/.last/.b.x (tracking), $g.headers.b and $h.variables.total, a results reference by run-dir name and by ':last'. "
+                "different files, then a csvpath reading $g.variables.total/.last/.b.x (tracking), $g.headers.b and $h.variables.total, a results reference by run-dir name, by ':last' and by ':first'. "
                 "Non-trivial = chains where a preceding member collected some but not all of its predecessor's lines + reference scenarios completed.",
         "samples": [{"group": jobs[0]["groups"]["g"], "rows": meta[0][2]}],
         "chains": len(jobs), "stage_comparisons": judged, "reference_scenarios": len(rjobs), "empty_stage_chains": len(d14), "failures": len(fails),
